@@ -380,6 +380,26 @@ static void one_execution( const Case& c, const std::vector< int >& pre, bool ve
       }
       if( !want.empty() ) vf::count( "executions_with_surviving_actions" );
    }
+   // ---- every action invocation, backtracked ones included (C04: none inside look-ahead / disabled sections, none twice):
+   //      for operators whose reference definition makes exactly the calls the implementation makes
+   if( S.check_actions && monitor_frames && ( o.k == R::OK || o.k == R::FAIL ) && ( r.kind == Real::OK || r.kind == Real::FAILED ) ) {
+      bool faithful = true;
+      for( int i = 0; i < c.nrules; ++i ) {
+         const int op = tab[ i ].op;
+         // list_tail's documented expansion tries the separator twice; holes / try_catch rules are fine but keep the set conservative
+         if( op == LIST_TAIL || op == LIST_TAIL3 ) faithful = false;
+      }
+      if( faithful ) {
+         bool same = RI.all_acts.size() == L.all_acts.size();
+         for( size_t i = 0; same && i < RI.all_acts.size(); ++i ) same = ( RI.all_acts[ i ][ 0 ] == L.all_acts[ i ].rule && RI.all_acts[ i ][ 1 ] == L.all_acts[ i ].b && RI.all_acts[ i ][ 2 ] == L.all_acts[ i ].e );
+         if( !same ) {
+            std::string w, g;
+            for( auto& a : RI.all_acts ) w += "n" + std::to_string( a[ 0 ] ) + "[" + std::to_string( a[ 1 ] ) + "," + std::to_string( a[ 2 ] ) + ") ";
+            for( auto& a : L.all_acts ) g += "n" + std::to_string( a.rule ) + "[" + std::to_string( a.b ) + "," + std::to_string( a.e ) + ") ";
+            report( "C04", "action invocations (backtracked ones included) differ: an action ran in look-ahead / a disabled section, twice, or not at all", c, "want " + w + "| got " + g );
+         }
+      }
+   }
    // ---- hook protocol (C08)
    if( S.check_hooks && c.cfg.ctl <= 2 ) {
       bool defect = false;
